@@ -73,7 +73,7 @@ def _mk_dag(edges):
         libs[i] = StaticLibrary(
             Path('lib%d.a' % i), 'elf', 'c',
             opts.ForwardOptions(libs=[libs[j] for j in adj[i]],
-                                link_options=opts.option_list(['-Wl,--opt%d' % i]))
+                                link_options=opts.option_list(['-Wl,--opt%d' % i, '-u', 'sym%d' % i]))
         )
     return adj, libs
 
@@ -115,6 +115,14 @@ def l_order(edges: List[bool], u: List[int]) -> bool:
                 ok = False
     for x in seen:
         if ('-Wl,--opt%d' % x) not in strs:
+            ok = False
+        # options made of several words (-u SYMBOL) arrive as that pair: raw strings are never
+        # de-duplicated against each other
+        pair = False
+        for j in range(len(strs) - 1):
+            if strs[j] == '-u' and strs[j + 1] == 'sym%d' % x:
+                pair = True
+        if not pair:
             ok = False
     return R(ok)
 
